@@ -14,6 +14,7 @@ pub mod c14;
 pub mod c15;
 pub mod c16;
 pub mod c17;
+pub mod c18;
 pub mod c19;
 
 use crate::engine::{Run, Verdict};
@@ -37,6 +38,7 @@ pub fn registry(id: &str) -> Option<(RunFn, ReplayFn)> {
         "C15" => Some((c15::run, c15::replay)),
         "C16" => Some((c16::run, c16::replay)),
         "C17" => Some((c17::run, c17::replay)),
+        "C18" => Some((c18::run, c18::replay)),
         "C19" => Some((c19::run, c19::replay)),
         _ => None,
     }
